@@ -1,4 +1,5 @@
 (* Extraction of the NNLS model (C11). ExtrOcamlBasic only; Qc, Z, positive, nat stay the extracted inductives. *)
 From Coq Require Import ExtrOcamlBasic.
-From PS Require Import Arith Generated_nnls NnlsModel.
-Extraction "nnlsmodel.ml" QcA block3 block3_gen nnls_spec kkt_check block3_tol block3_exit_requires_full_step block3_max_iter.
+From PS Require Import Arith Generated_nnls NnlsModel NnlsModel2.
+Extraction "nnlsmodel.ml" QcA block3 block3_gen nnls_spec kkt_check block3_tol block3_exit_requires_full_step block3_max_iter
+  pjv_block pjv_updown pjv_run pjv_tol lh_normaleq lh_skipped.
